@@ -1561,7 +1561,19 @@ impl Runner {
             return;
         }
         let (src, bytes, kind, maker) = self.w.recorded[cands[idx % cands.len()]].clone();
-        let src = if other_src { self.w.peers[rng.below(self.w.peers.len() as u64) as usize].addr } else { src };
+        // another source: the address of some peer, or the IPv4-mapped IPv6 form of the original
+        // source (another socket address as far as sessions and challenges are concerned)
+        let mapped = other_src && rng.chance(1, 3);
+        let src = if mapped {
+            match src {
+                SocketAddr::V4(a) => SocketAddr::new(IpAddr::V6(a.ip().to_ipv6_mapped()), a.port()),
+                other => other,
+            }
+        } else if other_src {
+            self.w.peers[rng.below(self.w.peers.len() as u64) as usize].addr
+        } else {
+            src
+        };
         // a handshake whose challenge is consumed (or was never ours) must have no effect
         let k = if kind == "handshake" || kind == "replay-hs" {
             let local = self.w.local_id;
@@ -1586,7 +1598,14 @@ impl Runner {
         } else {
             "replay"
         };
+        let n0 = self.steps.len();
         self.inject(src, bytes, k, maker, false, None).await;
+        if mapped && matches!(src, SocketAddr::V6(_)) {
+            // C02: presenting a datagram from another source address never produces a delivered message
+            if self.steps[n0..].iter().any(|s| s.outs.iter().any(|o| matches!(o, AOut::Request(..) | AOut::Response(..) | AOut::Established(..)))) {
+                self.w.failures.push(("C02".into(), "a datagram presented from the IPv4-mapped form of its source address was accepted".into()));
+            }
+        }
     }
 
     async fn net_mutate(&mut self, idx: usize, how: u8, pos: u64) {
